@@ -936,6 +936,9 @@ func (c *cse) randomStep(prev int) step {
 		tot += x.n
 	}
 	k := c.pick(tot)
+	if c.flavor == "overlap" && c.ovAt > 0 && c.coin(45) {
+		k = 0 // several own locks before the overlap
+	}
 	if c.t1Later && !c.t1Used && len(c.table()) <= c.page && c.coin(75) {
 		k = 0 // a second page needs more than page-size locks
 	}
@@ -986,6 +989,8 @@ func (c *cse) do(s step) {
 		c.opEdit(u, s.o)
 	case "remove":
 		c.opRemove(u, s.o)
+	case "overlap":
+		c.opOverlap(u, s.o)
 	case "locklocal":
 		c.opLocksLocal(u, s.o)
 	case "commit":
